@@ -134,6 +134,7 @@ class PE:
         self.classes, self.A, self.B, self.rec = classes, A, B, rec
         self.fa = dict(fields(classes, A))
         self.fb = dict(fields(classes, B))
+        self.env = {}          # local names bound by `name = <expression>` earlier in the body
 
     def attr(self, node):
         """self.f / other.f -> (owner, field)"""
@@ -151,6 +152,8 @@ class PE:
     def expr(self, e):
         if isinstance(e, ast.Constant) and e.value in (True, False):
             return e.value
+        if isinstance(e, ast.Name) and e.id in self.env:
+            return self.env[e.id]
         if isinstance(e, ast.BoolOp):
             vals = e.values
             if isinstance(e.op, ast.And):
@@ -166,9 +169,10 @@ class PE:
             return lnot(self.expr(e.operand))
         if isinstance(e, ast.Call) and isinstance(e.func, ast.Name) and e.func.id == "isinstance" and len(e.args) == 2:
             tgt, k = e.args
-            if not (isinstance(tgt, ast.Name) and tgt.id == "other" and isinstance(k, ast.Name) and k.id in self.classes):
+            ks = list(k.elts) if isinstance(k, ast.Tuple) else [k]
+            if not (isinstance(tgt, ast.Name) and tgt.id == "other" and ks and all(isinstance(x, ast.Name) and x.id in self.classes for x in ks)):
                 raise Untranslatable("unsupported isinstance " + ast.unparse(e))
-            return k.id in mro(self.classes, self.B)
+            return any(x.id in mro(self.classes, self.B) for x in ks)
         if isinstance(e, ast.Compare) and len(e.ops) == 1:
             l, op, r = e.left, e.ops[0], e.comparators[0]
             if (isinstance(op, (ast.Is, ast.IsNot)) and isinstance(l, ast.Call) and isinstance(l.func, ast.Name) and l.func.id == "type"
@@ -180,6 +184,8 @@ class PE:
                 w2, f2, t2 = self.attr(r)
                 if t1 != "str" or t2 != "str":
                     raise Untranslatable("comparison of non-string fields " + ast.unparse(e))
+                if (w1, w2) == ("other", "self"):
+                    (w1, f1), (w2, f2) = (w2, f2), (w1, f1)      # == on str is symmetric: self's field first
                 s = Sym(f"(String.eqb {self.var(w1, f1)} {self.var(w2, f2)})")
                 return s if isinstance(op, ast.Eq) else lnot(s)
         if (isinstance(e, ast.Call) and isinstance(e.func, ast.Attribute) and e.func.attr == "is_subseteq" and len(e.args) == 1):
@@ -199,6 +205,10 @@ class PE:
             return self.body_bool(stmts[1:])
         if isinstance(s, ast.Return):
             return self.expr(s.value)
+        if isinstance(s, ast.Assign) and len(s.targets) == 1 and isinstance(s.targets[0], ast.Name) and s.targets[0].id not in ("self", "other"):
+            # a local name for a boolean expression (evaluated eagerly, as Python does: an AttributeError here is an error there)
+            self.env[s.targets[0].id] = self.expr(s.value)
+            return self.body_bool(stmts[1:])
         if isinstance(s, ast.If):
             c = self.expr(s.test)
             rest = list(s.orelse) + stmts[1:] if s.orelse else stmts[1:]
@@ -316,10 +326,17 @@ def translate(path, expected_ctors):
 
 LEMMAS = r"""
 (* the generated definitions are the hand-written model the theorems of Props/C18.v are about *)
+(* a boolean equation over the atoms (String.eqb _ _) and (zleb _ _): decided by cases on the atoms, so the order of the operands of
+   `and` / `or` in the source does not matter *)
+Ltac bool_atoms :=
+  repeat match goal with
+         | |- context [String.eqb ?a ?b] => destruct (String.eqb a b)
+         | |- context [zleb ?a ?b] => destruct (zleb a b)
+         end; reflexivity.
 Lemma gen_zleb_eq : forall a b, gen_zleb a b = zleb a b.
 Proof.
   induction a as [| | | s | s | z IHz i IHi | z IHz x IHx y IHy]; intros b; destruct b; cbn [gen_zleb zleb is_top]; try reflexivity;
-    rewrite ?IHz, ?IHi, ?IHx, ?IHy; reflexivity.
+    rewrite ?IHz, ?IHi, ?IHx, ?IHy; first [reflexivity | bool_atoms].
 Qed.
 Lemma gen_top_eq : gen_top = UnknownZone.  Proof. reflexivity. Qed.
 Lemma gen_bottom_eq : gen_bottom = NotZone.  Proof. reflexivity. Qed.
